@@ -244,7 +244,7 @@ func genScripts(seed uint64, tier string, tries int) []script {
 	out = append(out, genExhaustive("exh-cold1x1-hot1x1", []int{1}, []int{1}, n, false, r)...)
 	nrand := 5000
 	if tier == "thorough" {
-		nrand = 120000
+		nrand = 80000
 		out = append(out, genExhaustive("exh-cold1x2-hot1x1", []int{2}, []int{1}, n, false, r)...)
 		out = append(out, genExhaustive("exh-cold1x1-hot2x1", []int{1}, []int{1, 1}, n, false, r)...)
 		out = append(out, genExhaustive("exh-cold1x1-hot1x1-open", []int{1}, []int{1}, 2, true, r)...)
@@ -308,12 +308,12 @@ func (f *fake) Bulk(ctx context.Context, in *storeapi.BulkRequest, _ ...grpc.Cal
 		return nil, errors.New("scripted store error")
 	}
 	// the two timeout outcomes wait for the circuit's execution deadline
-	select {
-	case <-ctx.Done():
-	case <-time.After(200 * time.Millisecond):
+	if _, has := ctx.Deadline(); !has {
 		rc.mu.Lock()
 		rc.viol = append(rc.viol, "no-deadline|replica call context carries no execution deadline (circuit timeout not applied)")
 		rc.mu.Unlock()
+	} else {
+		<-ctx.Done()
 	}
 	if o == oSlowOk {
 		return &emptypb.Empty{}, nil
